@@ -178,6 +178,10 @@ func (fr *Frame) call(v ssa.Value, cc *ssa.CallCommon, st *State, ins ssa.Instru
 				for k, v := range c.lets {
 					en.vars[k] = v
 				}
+				// a0, a1, ...: the arguments of this call (a0 is the receiver of a method call)
+				for i, a := range termArgs() {
+					en.vars[fmt.Sprintf("a%d", i)] = a
+				}
 				blk := fr.curBlock
 				stc := st
 				en.lookup = func(n string) (Term, bool) { return fr.localAtEnd(blk, n, stc) }
@@ -416,6 +420,16 @@ func (c *FnCtx) contractVars(fc *FuncContract, callee *ssa.Function, sig *types.
 				t.Ty = p.Type()
 				vars[p.Name()] = t
 				vars[fmt.Sprintf("p%d", i)] = t
+			}
+		}
+		// a parameter renamed since the contract was written keeps its recorded name as an alias
+		if meta := c.eng.localsMeta[callee.String()]; meta != nil && len(meta.Params) == len(callee.Params) {
+			for i, p := range callee.Params {
+				if old := meta.Params[i]; old != p.Name() && i < len(args) {
+					if _, clash := vars[old]; !clash {
+						vars[old] = vars[p.Name()]
+					}
+				}
 			}
 		}
 		return vars
